@@ -194,15 +194,29 @@ struct BoxT final : Box
         (void)ttl_ms;
         (void)val;
         auto k = KC::enc(key);
+        // half of the calls that ask for the default behaviour really use the default argument
+        const bool defarg = (allow == ALLOW_BOTH) && (key % 2 == 0);
         if constexpr (kIsSet)
+        {
+            if (defarg)
+                return in_call([&] { return c->insert(k); });
             return in_call([&] { return c->insert(k, al(allow)); });
+        }
         else
         {
             auto v = VC::enc(val);
             if constexpr (kIsTlru)
+            {
+                if (defarg)
+                    return in_call([&] { return c->insert(ms{ttl_ms}, k, std::move(v)); });
                 return in_call([&] { return c->insert(ms{ttl_ms}, k, std::move(v), al(allow)); });
+            }
             else
+            {
+                if (defarg)
+                    return in_call([&] { return c->insert(k, std::move(v)); });
                 return in_call([&] { return c->insert(k, std::move(v), al(allow)); });
+            }
         }
     }
 
@@ -320,6 +334,11 @@ struct BoxT final : Box
     {
         (void)peek;
         auto k = KC::enc(key);
+        if constexpr (kEnumPeek || kBoolPeek)
+        {
+            if (!peek && key % 2 == 0)
+                return dec_opt(in_call([&] { return c->find(k); })); // default peek argument
+        }
         if constexpr (kEnumPeek)
             return dec_opt(in_call([&] { return c->find(k, pk(peek)); }));
         else if constexpr (kBoolPeek)
@@ -332,6 +351,11 @@ struct BoxT final : Box
     auto call_find_range(const R& r, bool peek)
     {
         (void)peek;
+        if constexpr (kEnumPeek || kBoolPeek)
+        {
+            if (!peek && std::size(r) % 2 == 0)
+                return in_call([&] { return c->find_range(r); }); // default peek argument
+        }
         if constexpr (kEnumPeek)
             return in_call([&] { return c->find_range(r, pk(peek)); });
         else if constexpr (kBoolPeek)
@@ -343,6 +367,14 @@ struct BoxT final : Box
     void call_find_fill(R& r, bool peek)
     {
         (void)peek;
+        if constexpr (kEnumPeek || kBoolPeek)
+        {
+            if (!peek && std::size(r) % 2 == 0)
+            {
+                in_call([&] { c->find_range_fill(r); return 0; }); // default peek argument
+                return;
+            }
+        }
         if constexpr (kEnumPeek)
             in_call([&] { c->find_range_fill(r, pk(peek)); return 0; });
         else if constexpr (kBoolPeek)
@@ -453,7 +485,8 @@ struct BoxT final : Box
         if constexpr (kBoolPeek)
         {
             auto k = KC::enc(key);
-            auto o = in_call([&] { return c->find_with_use_count(k, peek); });
+            auto o = (!peek && key % 2 == 0) ? in_call([&] { return c->find_with_use_count(k); })
+                                             : in_call([&] { return c->find_with_use_count(k, peek); });
             if (o.has_value())
             {
                 f.hit   = true;
